@@ -43,7 +43,7 @@ Definition chk_thr (x : N * N) (y : N * list N) : bool :=
                             (RBytes (0 :: 63 :: thr_new m vals [0; 0; 0; 0; 0; 0])))
               (mkReq 4 39 lun [num]) (Ok (thr_dict (thr_new m vals [0; 0; 0; 0; 0; 0]))).
 
-Definition thr_sensors : list (N * N) := [(0, 0); (3, 1); (128, 2); (255, 3)].
+Definition thr_sensors : list (N * N) := [(3, 1); (255, 3)].
 (* every subset of the six thresholds with fixed distinct values; each threshold alone over its full range *)
 Definition thr_cases : list (N * list N) :=
   map (fun m => (m, [10; 20; 30; 140; 150; 160])) (nrange 64) ++
